@@ -2,6 +2,7 @@
 #   plain : g++ -O1                       (throughput, valgrind spot checks)
 #   asan  : clang++ -O1 -g  ASan+UBSan
 #   tsan  : clang++ -O1 -g  TSan          (sched.cpp is compiled WITHOUT -fsanitize=thread)
+#   cov   : clang++ source-based coverage  (not built by default; used by bin/coverage to measure reach)
 # Everything is rebuilt when /repo/include or /repo/static_libs change (stamp file with their hash).
 REPO ?= /repo
 B := build
@@ -11,12 +12,15 @@ WORLDS := $(basename $(notdir $(wildcard sim/worlds/c*.cpp)))
 CXX_plain := g++
 CXX_asan := clang++
 CXX_tsan := clang++
+CXX_cov := clang++
 FLAGS_plain := -O1
 FLAGS_asan := -O1 -g -fno-omit-frame-pointer -fsanitize=address,undefined -fno-sanitize=vptr -fno-sanitize-recover=undefined
 FLAGS_tsan := -O1 -g -fno-omit-frame-pointer -fsanitize=thread
+FLAGS_cov := -O1 -g -fprofile-instr-generate -fcoverage-mapping
 SCHED_FLAGS_plain := -O1
 SCHED_FLAGS_asan := -O1 -g
 SCHED_FLAGS_tsan := -O1 -g
+SCHED_FLAGS_cov := -O1 -g
 
 COMMON := -std=c++17 -pthread -DCHAISCRIPT_VERIF -DCHAISCRIPT_NO_DYNLOAD -Isim/include -Isim/core -I$(REPO)/include -I$(REPO)/static_libs -Wall -Wno-unused-function
 
@@ -57,7 +61,7 @@ $(B)/$(1)/simrun: $(B)/$(1)/simrun.o $(B)/$(1)/simworld.o $(B)/$(1)/sched.o $(B)
 	$$(CXX_$(1)) $$(FLAGS_$(1)) -pthread -rdynamic $$^ -o $$@ -ldl
 endef
 
-$(foreach f,plain asan tsan,$(eval $(call FLAVOUR_RULES,$(f))))
+$(foreach f,plain asan tsan cov,$(eval $(call FLAVOUR_RULES,$(f))))
 
 # small interactive probe: evaluates its arguments one after another on one engine
 $(B)/plain/probe: sim/core/probe.cpp $(B)/plain/simworld.o $(B)/plain/sched.o $(B)/plain/stdlib.o $(B)/plain/parser.o
